@@ -464,15 +464,14 @@ Definition rename_child_to (f : refid) (old : string) (target : refid) (new : st
   o <- remove_with_name (fr_node ffr) old
          (Some (fun r =>
             fr <- the_ref r ;;
-            match fr_parent fr with
-            | None => panic
-            | Some p => dec_ref_ p
-            end ;;
-            fr' <- the_ref r ;;
-            modify (put_ref r (set_parent fr' (Some target))) ;;
+            modify (put_ref r (set_parent fr (Some target))) ;;
             incref target ;;
             add_child (fr_node tfr) r new ;;
             backend (mkCall MRenamed (fr_file fr) [new] (Some (fr_file tfr)) [] []) ;;
+            match fr_parent fr with
+            | None => panic                    (* origParent.DecRef() on nil *)
+            | Some p => dec_ref_ p             (* last: a panic in Close leaves the fidRef under its new parent *)
+            end ;;
             ret tt)) ;;
   match o with
   | Some c =>
